@@ -3,7 +3,7 @@
    Statements only; every proof is [exact lemma]. *)
 From Coq Require Import NArith List Bool.
 From Coq.Strings Require Import Byte.
-From LOF Require Import Base.Bytes Model.Wire Model.Build Proofs.WireP Proofs.BuildP Proofs.NormP Proofs.FramingP.
+From LOF Require Import Base.Bytes Model.Wire Model.Build Proofs.WireP Proofs.BuildP Proofs.NormP Proofs.FramingP Model.BuildSw Proofs.HelloBaseP.
 Import ListNotations.
 Open Scope N_scope.
 
@@ -28,3 +28,13 @@ Theorem C01_length_field : forall m xid, wf_m m = true -> xid < 4294967296 ->
   be_value (firstn 2 (skipn 2 b)) = N.of_nat (length b).
 Proof. exact built_length_field. Qed.
 Print Assumptions C01_length_field.
+
+(* ---- hello with any list of version-bitmap elements ([hello_tree xid es]: the elements and
+   their bitmaps are exported fields, so a controller can build any such list): each element is
+   padded to 64 bits and its length field counts header and bitmaps (fix D46) ---- *)
+Theorem C01_hello_framing : forall xid es,
+  let t := hello_tree xid es in
+  exists tail, fst (marshal t) = be8 4 ++ be8 0 ++ be16 (glen t) ++ be32 xid ++ tail /\
+               glen t = N.of_nat (length (fst (marshal t))).
+Proof. exact hello_framing. Qed.
+Print Assumptions C01_hello_framing.
